@@ -248,6 +248,14 @@ func build(tier string) ([]runner.Instance, time.Duration) {
 				}
 			}
 		}
+		// a blocked call woken by one thread while a third closes the deque and
+		// observes it afterwards (the observation pins the order of Close and the
+		// woken call's effect)
+		for _, obs := range []model.Input{{Kind: model.Len}, {Kind: model.PopFront}, {Kind: model.PushBack, Val: 7}} {
+			add(c, [][]model.Input{{{Kind: model.WaitPushBack, Val: 6}}, {{Kind: model.PopFront}}, {{Kind: model.Close}, obs}})
+			add(c, [][]model.Input{{{Kind: model.WaitPushFront, Val: 5}}, {{Kind: model.PopBack}}, {{Kind: model.Close}, obs}})
+			add(c, [][]model.Input{{{Kind: model.WaitFront}}, {{Kind: model.PushBack, Val: 2}}, {{Kind: model.Close}, obs}})
+		}
 		core := []model.Input{{Kind: model.PushFront, Val: 1}, {Kind: model.PopBack}, {Kind: model.WaitFront}, {Kind: model.WaitPushBack, Val: 6}, {Kind: model.ForcePushBack, Val: 4}, {Kind: model.Close}}
 		for i, a := range core {
 			for j := i; j < len(core); j++ {
